@@ -156,7 +156,7 @@ def pipeline_diag(work, driver, cases, limit=400, tag="pipe"):
     core.run_cases(driver, "run", os.path.join(d, "cases.ndjson"), os.path.join(d, "trace.ndjson"))
     cfg = os.path.join(d, "P.cfg")
     with open(cfg, "w") as fh:
-        fh.write("SPECIFICATION PSpec\nCONSTANTS NSMaxNodes = 9 NSMaxEdges = 14 CBMaxNodes = 14 CBMaxEdges = 30 POMaxNodes = 24 WMMaxNodes = 10 WMMaxEdges = 14 NPMaxAux = 30 ACCUMULATE = FALSE RESET_TREE = TRUE\nPOSTCONDITION TraceAccepted\nCHECK_DEADLOCK FALSE\n")
+        fh.write("SPECIFICATION PSpec\nCONSTANTS NSMaxNodes = 9 NSMaxEdges = 14 CBMaxNodes = 14 CBMaxEdges = 30 POMaxNodes = 24 WMMaxNodes = 10 WMMaxEdges = 14 NPMaxAux = 30 BKMaxNodes = 24 ACCUMULATE = FALSE RESET_TREE = TRUE\nPOSTCONDITION TraceAccepted\nCHECK_DEADLOCK FALSE\n")
     cmd = core.java_cmd(work, d) + ["-workers", "1", "-metadir", os.path.join(d, "meta"), "-noGenerateSpecTE", "-config", cfg,
                                     os.path.join(work.specdir, "PipelineTrace.tla")]
     t0 = time.time()
@@ -182,7 +182,7 @@ def pipeline_diag(work, driver, cases, limit=400, tag="pipe"):
         return None
     if drift:
         log("[pipe] DRIFT (diagnostic, not a verdict): %s" % json.dumps(drift, sort_keys=True))
-    return dict(name="PipelineTrace.tla: %d stage snapshots of %d calls against the phase contracts of Pipeline.tla (layer 2) and %d phase-1 / layering / helper-node / ordering / coordinate / route / crossing-count / collect results predicted exactly by CycleBreakOps, NetSimplexOps, LongestPathOps, BreakAll, WMedianOps, PositionOps, NSPositionOps, RouteOps, OrderCrossings, Collect (layer 3), %d drifting" % (stats["stages"], stats["calls"], stats["l3predictions"], stats["drift"]),
+    return dict(name="PipelineTrace.tla: %d stage snapshots of %d calls against the phase contracts of Pipeline.tla (layer 2) and %d phase-1 / layering / helper-node / ordering / coordinate / route / crossing-count / collect results predicted exactly by CycleBreakOps, NetSimplexOps, LongestPathOps, BreakAll, WMedianOps, PositionOps, NSPositionOps, BKOps, RouteOps, OrderCrossings, Collect (layer 3), %d drifting" % (stats["stages"], stats["calls"], stats["l3predictions"], stats["drift"]),
                 generated=int(m.group(1)), distinct=int(m.group(2)), wall=time.time() - t0, ok=True, drift=drift)
 
 
@@ -244,6 +244,16 @@ def nspos_model(work, tier):
                       ("SPECIFICATION Spec\nCONSTANTS Layers = 3 MaxPer = 2 MaxNodes = %d Widths = {0, 3, 6} MaxIn = 2 NS = 1\n"
                        "INVARIANTS NSPosFinishes NSPosTreeRight NSPosFeasible NSPosBalanceKeepsObjective NSPosSeparates NSPosSeparatesExactly NSPosLeftmostZero NSPosStraightensChains\nCHECK_DEADLOCK FALSE\n") % k,
                       "Position.tla + NSPositionOps: the network-simplex positioner on every proper layered graph with 3 layers, <= %d nodes, widths {0,3,6}: auxiliary graph, weighted network simplex, hbalance (NSPosFinishes, NSPosTreeRight, NSPosFeasible, NSPosBalanceKeepsObjective, NSPosSeparates, NSPosSeparatesExactly, NSPosLeftmostZero, NSPosStraightensChains)" % k,
+                      workers=15)
+
+
+def bk_model(work, tier):
+    """the Brandes-Koepf positioner (BKOps) on every small layered graph with 4 layers (markConflicts needs 4)"""
+    k = 5 if tier == "quick" else 6
+    return mech_model(work, "BK", "Position.tla",
+                      ("SPECIFICATION Spec\nCONSTANTS Layers = 4 MaxPer = 2 MaxNodes = %d Widths = {0, 3} MaxIn = 2 NS = 1\n"
+                       "INVARIANTS BKBlocksAreChains BKEveryNodeInOneBlock BKAlignmentsDoNotCross BKUniformSeparated BKNonNegative BKNoStartInsideNeighbour\nCHECK_DEADLOCK FALSE\n") % k,
+                      "Position.tla + BKOps: the Brandes-Koepf positioner (conflict marking, 4 x vertical alignment + compaction, balancing, verification, final adjustment) on every proper layered graph with 4 layers, <= %d nodes, widths {0,3} (BKBlocksAreChains, BKEveryNodeInOneBlock, BKAlignmentsDoNotCross, BKUniformSeparated, BKNonNegative, BKNoStartInsideNeighbour)" % k,
                       workers=15)
 
 
